@@ -60,7 +60,7 @@ func c05Val(d []interface{}) []byte {
 		}
 	case "lcg":
 		for j := 1; j <= 16; j++ {
-			b[j-1] = byte((p*37 + j*101 + j*j*(p+3)) % 256)
+			b[j-1] = byte((p*37 + j*101 + j*j*(p+3) + (p/256)*(j*29+11)) % 256)
 		}
 	}
 	return b
@@ -97,15 +97,28 @@ func c05vec(args []string) error {
 				got = map[string]interface{}{"error": err.Error()}
 				break
 			}
-			src := c05Val(c["b"].([]interface{}))
-			e := make([]byte, 16)
-			d := make([]byte, 16)
+			// destination and source at every alignment within a word (disjoint buffers)
+			vecCtr++
+			src := c05At(vecCtr/4, c05Val(c["b"].([]interface{})))
+			e := c05At(vecCtr, nil)
+			d := c05At(vecCtr+1, nil)
 			blk.Encrypt(e, src)
 			blk.Decrypt(d, src)
 			got = map[string]interface{}{"enc": ints(e), "dec": ints(d)}
 		case "keylen":
 			n := int(c["n"].(float64))
-			_, err := sm4.NewCipher(make([]byte, n))
+			key := make([]byte, n)
+			for i := range key {
+				switch c["fill"] {
+				case "ff":
+					key[i] = 0xff
+				case "hexdigits":
+					key[i] = "0123456789abcdefFEDCBA9876543210"[i%32]
+				case "text":
+					key[i] = byte('A' + i%26)
+				}
+			}
+			_, err := sm4.NewCipher(key)
 			got = map[string]interface{}{"err": err != nil}
 		}
 		b, _ := json.Marshal(map[string]interface{}{"case": c, "got": got})
@@ -131,6 +144,16 @@ func c05NewCipher(k []byte) (cipher.Block, error) {
 		buf[i] = 0xa5
 	}
 	return blk, err
+}
+
+var vecCtr int
+
+// a 16-byte slice that starts off bytes into its backing array (off mod 8), filled with v if given
+func c05At(off int, v []byte) []byte {
+	buf := make([]byte, 16+8)
+	b := buf[off%8 : off%8+16 : off%8+16]
+	copy(b, v)
+	return b
 }
 
 type cipherBeh struct {
@@ -172,9 +195,10 @@ func c05beh(args []string) error {
 			continue
 		}
 		for _, o := range beh.Ops {
-			src := c05Val([]interface{}{"lcg", float64(o.B)})
+			vecCtr++
+			src := c05At(vecCtr/3, c05Val([]interface{}{"lcg", float64(o.B)}))
 			orig := append([]byte(nil), src...)
-			dst := make([]byte, 16)
+			dst := c05At(vecCtr, nil)
 			if o.Alias {
 				dst = src
 			}
